@@ -579,7 +579,8 @@ theorem RPart.rdown {m : Mdl} {t : RTree} {p : Path} {st : Step}
       · simp only [upd, hqp, if_false, Z]
 
 /-- a visit that ends at the child as a leaf: `ot->second.N += 1` closes the child's frame -/
-theorem RPart.rleaf {m : Mdl} {t : RTree} {child : Path} (h : RPart m (upd Z child 1) t) : RPart m Z (rleaf t child) := by
+theorem RPart.rleaf {m : Mdl} {t : RTree} {child : Path} (recV : Bool) (imm : Rat) (h : RPart m (upd Z child 1) t) :
+    RPart m Z (rleaf t child recV imm) := by
   refine ⟨fun q hq0 => h.nodup q hq0, fun q hq0 => h.zero q hq0, fun q hq0 => ?_, fun q k x hx => h.par q k x hx, fun hm q hq0 => ?_⟩
   · show sumOver (t.tb q) (t.keys q) = upd t.nN child (t.nN child + 1) q + Z q
     have ht := h.tot q hq0
@@ -630,7 +631,7 @@ theorem rsim_part (m : Mdl) (H k : Nat) : ∀ (fuel : Nat) (t : RTree) (p : Path
               exact ih _ _ _ _ _ _ _ _ hr hchild (hd.of_eq a1 a2 a3 a4 a5)
           · simp at hr
             obtain ⟨rfl, _, rfl⟩ := hr
-            exact RPart.rleaf hd
+            exact RPart.rleaf _ _ hd
       · simp at h
 
 theorem RPart.open_root {m : Mdl} {t : RTree} (h : RPart m Z t) : RPart m (upd Z [] 1) t := by
